@@ -13,6 +13,7 @@ class Results:
         self.items = []
         self.extra = {}
         self.floors = {}
+        self.fps = {}
         self.analysed = set()     # qualified names of functions whose bodies the rules read
 
     # -- recording -------------------------------------------------------
@@ -29,6 +30,11 @@ class Results:
     def violated(self, rule, site, what, loc=None, engine=None):
         """site: stable key of the offending construct (qualified names / field names / roles, never line numbers)."""
         self._add(VIOLATED, rule, site, what, loc, engine)
+
+    def fingerprint(self, rule, site, value):
+        """Numeric signature of what was OBSERVED at a violated site (the wrong formula evaluated on a fixed witness).  An open known finding that records a fingerprint suppresses only the deviation with
+        that fingerprint: another wrong formula at the same site is a new violation."""
+        self.fps.setdefault((rule, site), []).append(str(value))
 
     def undecided(self, rule, instance, reason, loc=None, engine=None):
         self._add(UNDECIDED, rule, instance, reason, loc, engine)
@@ -110,12 +116,20 @@ def finish(R, tier, meta, t0, root, write_evidence=True, quiet=False):
                 continue
             dedup.add((it['rule'], it['instance']))
             k = open_known.get((it['rule'], it['instance']))
-            if k is not None:
+            fp_now = '|'.join(R.fps.get((it['rule'], it['instance']), []))
+            if k is not None and k.get('fingerprint') and fp_now and k['fingerprint'] != fp_now:
+                it = dict(it)
+                it['detail'] = ('this site has a recorded known finding, but what is observed now is a DIFFERENT deviation (observed signature %s, recorded %s): ' % (fp_now[:120], k['fingerprint'][:120])) + it['detail']
+                violations.append(it)
+            elif k is not None:
                 kf_hits.append((it, k))
             else:
                 violations.append(it)
         elif it['verdict'] == UNDECIDED:
             undecided.append(it)
+    if os.environ.get('VERIF_PRINT_FINGERPRINTS'):
+        for (r_, s_), v_ in sorted(R.fps.items()):
+            print('FINGERPRINT %s %s %s' % (r_, s_, '|'.join(v_)))
     seen_kf = set()
     for it, k in kf_hits:
         key = (it['rule'], it['instance'])
